@@ -79,9 +79,30 @@ structure TInv (p : P) : Prop where
   schemaCats : ∀ sc ∈ p.schemas, sc.cat < p.cats.length
   statics : MapBelow p.staticTypes p.schemas.length
   maps : ∀ pr ∈ p.processes, ∀ m ∈ pr.maps, m.lib < p.libs.all.length
-  counters : ∀ c ∈ p.counters, c.process < p.processes.length
+  /-- a counter's process exists and the pid recorded in the counter (counters.rs stores the pid string
+  at creation) is that process's pid -/
+  counters : ∀ c ∈ p.counters, ∃ pr, p.processes[c.process]? = some pr ∧ pr.pid = c.pid
   visible : AllBelow p.visible p.threads.length
   selected : AllBelow p.selected p.threads.length
+
+theorem TInv.counters_lt {p : P} (h : TInv p) (c : Counter) (hc : c ∈ p.counters) :
+    c.process < p.processes.length := by
+  obtain ⟨pr, hpr, _⟩ := h.counters c hc
+  exact (List.getElem?_eq_some_iff.mp hpr).1
+
+/-- replacing a process by one with the same pid keeps the counter clause -/
+theorem counters_set {procs : List Process} {cs : List Counter} {i : Nat} {old new : Process}
+    (h : ∀ c ∈ cs, ∃ pr, procs[c.process]? = some pr ∧ pr.pid = c.pid)
+    (ho : procs[i]? = some old) (hp : new.pid = old.pid) :
+    ∀ c ∈ cs, ∃ pr, (procs.set i new)[c.process]? = some pr ∧ pr.pid = c.pid := by
+  intro c hc
+  obtain ⟨pr, hpr, hpid⟩ := h c hc
+  by_cases he : i = c.process
+  · subst he
+    rw [ho] at hpr
+    cases hpr
+    exact ⟨new, by simp [List.getElem?_set, (List.getElem?_eq_some_iff.mp ho).1], hp.trans hpid⟩
+  · exact ⟨pr, by rw [List.getElem?_set_ne he]; exact hpr, hpid⟩
 
 theorem TInv.init : TInv P.init where
   libs := ⟨fun _ hx => (nomatch hx), fun _ hx => (nomatch hx)⟩
